@@ -1,0 +1,74 @@
+//go:build verif
+
+// Contracts for package pomsg, checked by /verif/govc (comment-only).
+package pomsg
+
+// C11: a message is representable in a PO file exactly when a plural, if any,
+// is the first child and has the two cases PO knows ({case 1} and {default}).
+//@ func Validate
+//@   props C11
+//@   nosafety
+//@   modifies *
+//@   ghost ch []ast.Node = nil
+//@   at call ast.ParentNode.Children#0 assert[the-message's-own-children;C11] arg0 == n.Body
+//@   at call ast.ParentNode.Children#0 after set ch = res
+//@   ensures[accepted-only-if-plurals-are-first-and-have-case-one-and-default;C11] isnil(result) ==> forall(i, 0, len(ch), typeis(ch[i], *ast.MsgPluralNode) ==> i == 0 && len(unbox(ch[i], *ast.MsgPluralNode).Cases) == 1 && unbox(ch[i], *ast.MsgPluralNode).Cases[0].Value == 1)
+//@   loop 0
+//@     invariant[children-so-far-are-fine;C11] forall(i, 0, rangeindex + 1, typeis(ch[i], *ast.MsgPluralNode) ==> i == 0 && len(unbox(ch[i], *ast.MsgPluralNode).Cases) == 1 && unbox(ch[i], *ast.MsgPluralNode).Cases[0].Value == 1)
+
+// the msgid is the message's text with {NAME} for each placeholder; for a
+// plural message the singular id is the {case 1} body, the plural id the
+// {default} body; a non-plural message has no plural id.
+//@ func msgidn
+//@   props C11
+//@   nosafety
+//@   modifies *
+//@   ghost gb ast.ParentNode = nil
+//@   ghost plural bool = false
+//@   ghost visited int = 0
+//@   ghost nchildren int = -1
+//@   at call ast.ParentNode.Children#0 assert[the-message's-own-children;C11] arg0 == n.Body
+//@   at call pomsg.pluralCase#0 assert[singular-or-plural-body-as-asked;C11] arg1 == singular
+//@   at call pomsg.pluralCase#0 after set gb = res
+//@   at call pomsg.pluralCase#0 after set plural = true
+//@   at call ast.ParentNode.Children#1 assert[children-of-the-chosen-body;C11] arg0 == ite(plural, gb, n.Body)
+//@   at call ast.ParentNode.Children#1 after set nchildren = len(res)
+//@   at call pomsg.writeph#0 after set visited = visited + 1
+//@   loop 0
+//@     invariant[children-written-so-far;C11] visited == rangeindex + 1 && visited <= nchildren
+
+//@ func pluralCase
+//@   props C11
+//@   nosafety
+//@   pure
+//@   ensures[case-one-for-singular-default-for-plural;C11] result == ite(singular, n.Cases[0].Body, n.Default)
+
+//@ func writeph
+//@   props C11
+//@   nosafety
+//@   modifies *
+//@   at call (*bytes.Buffer).Write#0 assert[raw-text-verbatim;C11] arg0 == buf && sameslice(arg1, unbox(child, *ast.RawTextNode).Text)
+
+// the catalogue hands out the message stored under the id, or nil.
+//@ func (*bundle).Message
+//@   props C11
+//@   nosafety
+//@   pure
+//@   ensures[nil-exactly-when-the-id-is-not-in-the-catalogue;C11] (result == nil) == !haskey(b.messages, id)
+//@ func (*bundle).PluralCase
+//@   props C11
+//@   nosafety
+//@   modifies *
+//@   at call funcvalue#0 assert[the-catalogue's-plural-rule-on-n;C11] arg0 == n
+
+// one msgstr without a plural variable is a plain message; otherwise one
+// plural part with one case per msgstr, in the catalogue's order.
+//@ func newMessage
+//@   props C11
+//@   nosafety
+//@   modifies *
+//@   at call soymsg.Parts#0 assert[the-only-msgstr;C11] same(arg0, msgstrs[0])
+//@   at call soymsg.Parts#1 assert[this-case's-msgstr;C11] same(arg0, msgstrs[rangeindex+1])
+//@   ensures[keeps-the-id;C11] result.ID == id
+//@   loop 0
+//@     invariant[one-case-per-msgstr-so-far;C11] len(cases) == rangeindex + 1
